@@ -44,6 +44,7 @@ pub struct Sc {
     pub history: u8,
 }
 
+#[derive(Clone, Copy)]
 pub struct C19;
 
 /// The built object, in comparable form.
